@@ -98,6 +98,77 @@ struct view {
     std::size_t size() const noexcept { return m_size; }
 };
 
+
+// ---- G4: nothing is bounded
+struct pbf_reader_mock {
+    view get_view() { return view{nullptr, 0}; }
+    int32_t get_int32() { return 0; }
+    bool next() { return false; }
+    int tag() { return 0; }
+};
+
+inline view zlib_uncompress_string(const char* input, unsigned long input_size, unsigned long raw_size, std::string& output) {
+    output.resize(raw_size);
+    (void)input; (void)input_size;
+    return view{output.data(), output.size()};
+}
+
+inline view decode_blob(const std::string& blob_data, std::string& output) {
+    int32_t raw_size = 0;
+    view compressed{nullptr, 0};
+    pbf_reader_mock pbf_blob;
+    (void)blob_data;
+    while (pbf_blob.next()) {
+        switch (pbf_blob.tag()) {
+            case 1: {
+                const auto data_len = pbf_blob.get_view();
+                return data_len;                    // raw data size not tested
+            }
+            case 2:
+                raw_size = pbf_blob.get_int32();    // range not tested
+                break;
+            default:
+                compressed = pbf_blob.get_view();
+        }
+    }
+    return zlib_uncompress_string(compressed.data(), compressed.size(), static_cast<unsigned long>(raw_size), output);
+}
+
+class PBFParser {
+    std::string m_input_buffer;
+    int m_fd = -1;
+
+    static uint32_t get_size_in_network_byte_order(const char* d) noexcept {
+        return static_cast<uint32_t>(d[3]) | (static_cast<uint32_t>(d[0]) << 24U);
+    }
+
+    void ensure_available_in_input_queue(std::size_t) {}
+
+public:
+    uint32_t read_blob_header_size_from_file() {
+        uint32_t size = get_size_in_network_byte_order(m_input_buffer.data());
+        return size;                                // header size not tested
+    }
+
+    static std::size_t decode_blob_header(pbf_reader_mock& r) {
+        std::size_t blob_header_datasize = 0;
+        while (r.next()) {
+            blob_header_datasize = static_cast<std::size_t>(r.get_int32());
+        }
+        return blob_header_datasize;                // zero accepted
+    }
+
+    std::string read_from_input_queue_with_check(std::size_t size) {
+        std::string buffer;
+        buffer.resize(size);                        // before the test
+        if (size > max_uncompressed_blob_size) {
+            throw osmium::io_error{"invalid blob size"};
+        }
+        ensure_available_in_input_queue(size);
+        return buffer;
+    }
+};
+
 class PBFPrimitiveBlockDecoder {
     std::vector<std::pair<const char*, osmium::string_size_type>> m_stringtable;
 
@@ -339,4 +410,11 @@ void verif_c03_positive(osmium::io::detail::PBFPrimitiveBlockDecoder& d, osmium:
     t.add_tag("k", 1, "v", 1);
     osmium::io::detail::XMLParser::ExpatXMLParser x{nullptr};
     x("", true);
+    std::string out;
+    (void)osmium::io::detail::decode_blob(out, out);
+    osmium::io::detail::PBFParser pp;
+    (void)pp.read_blob_header_size_from_file();
+    osmium::io::detail::pbf_reader_mock rm;
+    (void)osmium::io::detail::PBFParser::decode_blob_header(rm);
+    (void)pp.read_from_input_queue_with_check(1);
 }
